@@ -54,6 +54,13 @@ pub fn with_hash_key<T: Send>(key: u64, f: impl FnOnce() -> T + Send) -> Result<
             .join()
             .unwrap_or_else(|_| Err("trial thread died".to_string()))
     })
+    .map_err(|msg| {
+        // a panic located in the harness' own sources is not a finding about the code under test
+        if simcore::driver::panic_in_harness(&msg) {
+            simcore::driver::harness_error(&format!("the harness itself panicked: {msg}"));
+        }
+        msg
+    })
 }
 
 /// Self-test of the seam: same key → same iteration order, different keys → (almost
